@@ -309,3 +309,24 @@ func (g *Cfg) MultiOf(t *rapid.T, k string) *Spec {
 	}
 	return s
 }
+
+// Boost returns a copy of the configuration in which the given kinds
+// are `factor` times as likely as the others within their class
+// (construction of the feature a property is about, instead of
+// filtering for it).
+func (g *Cfg) Boost(factor int, kinds ...string) *Cfg {
+	c := *g
+	f := func(l []string) []string {
+		out := append([]string(nil), l...)
+		for _, k := range l {
+			if in(k, kinds) {
+				for i := 1; i < factor; i++ {
+					out = append(out, k)
+				}
+			}
+		}
+		return out
+	}
+	c.Leaves, c.Wraps, c.Multi = f(g.Leaves), f(g.Wraps), f(g.Multi)
+	return &c
+}
